@@ -312,10 +312,53 @@ def _failed_import_leaves_nothing(ctx, pk):
                         signature="C19:state-left-behind:import")
 
 
+def _failed_component_leaves_nothing(ctx, pk):
+    """one ConfigLoader object: a load whose %import names a component that fails AFTER it has been found and opened (a schema
+    error or an XML error past its first type, or a type clash), then the same text again on the same loader: the second load
+    must end like the first and like a load with a fresh loader - the files have not changed"""
+    import ZConfig
+    from ZConfig.loader import ConfigLoader
+    xml = "<schema><abstracttype name='lab'/><multisection type='lab' name='*' attribute='items'/><key name='plain'/></schema>"
+    bodies = {
+        "schema-error-after-first-type": "<component><sectiontype name='cfirst' implements='lab'><key name='k'/></sectiontype>"
+                                         "<sectiontype name='csecond' extends='nosuchbase'/></component>",
+        "xml-error-after-first-type": "<component><sectiontype name='cfirst' implements='lab'><key name='k'/></sectiontype><oops</component>",
+        "error-in-first-element": "<component><sectiontype name='cfirst' implements='nosuchabstract'/></component>",
+        "nested-import-fails": "<component><import package='zcv_no_such_pkg_c19b'/><sectiontype name='cfirst' implements='lab'/></component>",
+    }
+
+    def outcome(text, loader):
+        try:
+            cfg, _ = loader.loadFile(io.StringIO(text), "file:///zcv/c19b.conf")
+            return "ok:%d" % len(cfg.items)
+        except ZConfig.ConfigurationError as e:
+            return "cfg:" + type(e).__name__
+        except Exception as e:
+            return "exc:" + type(e).__name__
+    for kind, body in bodies.items():
+        name = pk.add_component([])
+        with open(os.path.join(pk.root, name, "component.xml"), "w") as f:
+            f.write(body)
+        for text in ("%%import %s\n<cfirst>\n k v\n</cfirst>\n" % name, "%%import %s\nplain x\n" % name):
+            schema = ZConfig.loadSchemaFile(io.StringIO(xml))
+            ld = ConfigLoader(schema)
+            outs = [outcome(text, ld), outcome(text, ld), outcome(text, ld)]
+            fresh = outcome(text, ConfigLoader(ZConfig.loadSchemaFile(io.StringIO(xml))))
+            ctx.evaluations += 1
+            ctx.nontriv(("failed-component", kind, text))
+            ctx.count("failed-component:%s:%s" % (kind, fresh.split(":")[0]))
+            if any(o != fresh for o in outs):
+                ctx.violate("a component that fails to load (%s) leaves something behind in the loader: the same text gives %r on one "
+                            "loader used three times and %s with a fresh loader" % (kind, outs, fresh),
+                            {"schema_xml": xml, "component_xml": body, "text": text, "outcomes": outs, "fresh": fresh},
+                            signature="C19:state-left-behind:failed-component")
+
+
 def _schema_graphs(ctx, tr, pk, base):
     """schema extends / import graphs and %import, with a malformed or missing member; direct oracle only"""
     import ZConfig
     _failed_import_leaves_nothing(ctx, pk)
+    _failed_component_leaves_nothing(ctx, pk)
     comp = pk.add_component([F.TypeD("cimp", [F.KeyD("k", "string")])])
     shapes = []
     for bad in (None, "base", "mid", "imp", "missing", "missing-first", "broken-last", "fragment-first"):
